@@ -1,7 +1,7 @@
 (* C09 -- Mock parameter values compare by mathematical value, symmetrically.
    Only statements; every proof is `exact <lemma>` into C09_Proofs.v. *)
 From Coq Require Import ZArith Bool List.
-From CppUVerif Require Import lib.CInt lib.Dbl C09_Model C09_Proofs.
+From CppUVerif Require Import lib.CInt lib.Dbl lib.Str C09_Model C09_Proofs.
 Local Open Scope Z_scope.
 
 (* two integer values of any of the 6x6 type pairs are equal iff they denote the same integer *)
